@@ -16,3 +16,8 @@ Definition reorder (L i : nat) : nat := kron_idx (rev (to_digits L i)).
 Definition solver_state_idx (sigma : list nat) : nat := reorder (length sigma) (vec_idx sigma).
 (* diagonal entry of Z embedded on site i, at dense index k of a chain of length L: +1 for digit 0, -1 for digit 1 *)
 Definition z_sign (L i k : nat) : bool := Nat.eqb (nth i (to_digits L k) 0) 1.
+(* a two-site operator embedded on (s, s+1) as  eye(2^s) (x) op (x) eye(2^(L-2-s))  (_embed_generic, adjacent branch): the
+   row/column of the 4x4 operator that acts at dense index k is 2*digit_s + digit_(s+1) *)
+Definition pair_digit (L s k : nat) : nat := 2 * nth s (to_digits L k) 0 + nth (S s) (to_digits L k) 0.
+(* the same, computed the way the code builds it: k = (a * 4 + p) * 2^(L-2-s) + b with a < 2^s, p < 4, b < 2^(L-2-s) *)
+Definition pair_digit_kron (L s k : nat) : nat := (k / 2 ^ (L - 2 - s)) mod 4.
